@@ -183,6 +183,11 @@ HOOK_PROJECTS = {
                                             'a.ucg': 'let v = TRACE %s;\nlet f = func (x) => select (x > 0, v) => {true = (import "b.ucg").g(x - 1)};\n' % SP.ph(1),
                                             'b.ucg': 'let g = func (x) => (import "a.ucg").f(x);\n'}, 'ok', {'/cwd/a.ucg': 1}),
     'cycle-in-tuple-field': ({'main.ucg': 'let a = import "a.ucg";\n', 'a.ucg': 'let t = {b = import "b.ucg"};\n', 'b.ucg': 'let t = [import "a.ucg"];\n'}, 'cycle', {}),
+    # a cycle one of whose imports sits in a module body (evaluated by the VM that instantiates the module)
+    'cycle-through-module-body': ({'main.ucg': 'let a = import "a.ucg";\n', 'a.ucg': 'let m = module {x = 1} => { let b = import "b.ucg"; };\nlet r = m{};\n', 'b.ucg': 'let a = import "./a.ucg";\n'}, 'cycle', {}),
+    'cycle-through-module-out-expr': ({'main.ucg': 'let a = import "a.ucg";\n', 'a.ucg': 'let m = module {x = 1} => ((import "b.ucg").y) { let q = 1; };\nlet r = m{};\n', 'b.ucg': 'let y = (import "a.ucg").r;\n'}, 'cycle', {}),
+    'module-body-import-acyclic': ({'main.ucg': 'let m = module {x = 1} => { let l = import "lib/x.ucg"; let v = l.v; };\nlet r = [m{}.v, m{x = 2}.v];\n', 'lib/x.ucg': 'let v = TRACE %s;\n' % SP.ph(1)}, 'ok', {'/cwd/lib/x.ucg': 1}),
+    'cycle-non-let-import-through-dotdot': ({'main.ucg': 'let f = func (x) => (import "./sub/b.ucg").v + x;\nlet r = f(1);\n', 'sub/b.ucg': 'let v = (import "../main.ucg").r;\n'}, 'cycle', {}),
     'missing-file': ({'main.ucg': 'let a = import "nosuch.ucg";\n'}, 'error', {}),
 }
 
@@ -199,6 +204,7 @@ def harness_hook(ctx, case):
     matches = Agg('ArgMatches', None, (MapV('HashMap').insert('INPUT', VecV(['main.ucg'])), MapV('HashMap')))
     exited = 0
     out = {'reached': True, 'asserts': 2, 'violations': []}
+    ctx.fuel = min(ctx.fuel, 60_000_000)        # the projects need < 10M steps; a run that is still going after 60M is reported (and judged natively)
     try:
         ctx.call('build_command', [matches, VecV([]), True, env])
     except interp.HarnessStop as h:
